@@ -71,6 +71,16 @@ CHECKS = {
          "Continuous quantifier; bounded-exhaustive over all 2,925 triples and 17,550 quadruples (quick: every third) of the 27-point lattice + prefixes n=5..50 of two lattice enumerations, x 28 rotations x reflection x 3 noise patterns: orthogonality, det=+1, RMSD not above the independent optimum + 1e-8, congruent sets superposed, mirror images never superposed improperly, rmsd_points/reorient_points consistent; Dimer.transform_ab reproduces the relating rotation.",
          "Rotation about the origin (the routine does not centre); Horn's method is the trusted optimum.",
          "2/C18"),
+ "C19": ("exploration",
+         "complete enumeration of a degenerate axis-aligned facet family (4^7 / 5^7 energy assignments) and of subsets of a generic normal pool, against brute-force half-space intersection and mesh predicates",
+         "Continuous quantifier; bounded-exhaustive over all assignments of {absent, 1.0, 1.3, 2.0} (thorough + 1.7 and {110} pairs) to the 7 axis pairs of {100}+{111} (cubes, prisms, octahedra, cuboctahedra, cut-off facets, >= 4 facets through a vertex), all subsets of size 3..7 (thorough 3..12) of 12 generic normals x 3 energy patterns, 30/60-facet sets: vertices inside all half-spaces and on >= 3 facets, vertex set = reference, closed outward mesh, volume = reference, energy scaling.",
+         "Vertex coincidence 1e-6, volume 1e-7 relative; unbounded facet sets are recognised by the reference and skipped.",
+         "2/C19"),
+ "C20": ("model_checking",
+         "complete enumeration of the bounded stratification domain (dims 1..1000 x m<=12, all elementary boxes) and of a boundary-oriented family of seed windows; bit-exact comparison batch = single = prefix = direct Gray-code reference",
+         "Stratification and (0,m,2)-net: finite domain enumerated completely in both tiers; batch/single/prefix agreement on 4,300+ windows (all [s,s+k] with s<=64,k<=64; +-2 around every power of two to 2^20; 10^6) x dims {1,2,3,10,100,1000} (Sobol, bit-exact) and 14 (thorough 64) Korobov dimensions; front-end dispatch; determinism of repeated calls; direct non-recurrent evaluation from hard-coded Joe-Kuo rows for dims 1..13 x 4096 seeds.",
+         "Compiled kernels exercised as built (no Cython offline); the batch/single half is an exhaustive window family under a work budget, not all (s,k) up to 10^6.",
+         "2/C20"),
 }
 
 ALL = ["C%02d" % i for i in range(1, 21)]
